@@ -1,0 +1,16 @@
+//go:build verif
+
+// Verification hooks for C02 (compiled only with -tags verif). Add-only: nothing here is
+// referenced by the library itself.
+
+package codec
+
+// VerifC02DecInferLen exposes decInferLen, the cap on every speculative container allocation.
+func VerifC02DecInferLen(clen int, maxlen, unit uint) uint { return decInferLen(clen, maxlen, unit) }
+
+// VerifC02UsableByteSliceLen is the length usableByteSlice hands back for a claimed length
+// when the scratch buffer bs has capacity bufcap, and whether it allocated.
+func VerifC02UsableByteSliceLen(bufcap int, slen int) (n int, isNew bool) {
+	out, isNew := usableByteSlice(make([]byte, 0, bufcap), slen)
+	return len(out), isNew
+}
